@@ -39,10 +39,7 @@ fn one_case_joined(run: &mut Run, defs: &str, text: &str, is_aggregate: bool, li
                 if let Some(Some((cols, rows))) = steps.get(k - 1) { shown = Some(render(cols, rows)); }
                 let table = shown.clone().unwrap_or_default();
                 if table != batch.records() {
-                    // D61: over a JOIN a line with several partners shows one table per partner, the last being the batch table
-                    let b = batch.records();
-                    let d61 = !joined.is_empty() && table.len() > b.len() && table[table.len() - b.len()..] == b[..];
-                    run.fail(format!("{} k={}", desc, k), if d61 { "D61:follow-join-table-per-partner" } else { "incremental-table-differs" }, format!("after line {} the table shown is {:?} but a batch run over the first {} lines gives {:?}", k, table, k, batch.records()));
+                    run.fail(format!("{} k={}", desc, k), "incremental-table-differs", format!("after line {} the table shown is {:?} but a batch run over the first {} lines gives {:?}", k, table, k, batch.records()));
                     break;
                 }
             } else {
@@ -128,8 +125,8 @@ pub fn run(p: &Params) -> Run {
         lines.truncate(10);
         one_case(&mut run, C04_DEF, &q.sql(), true, &lines);
     }
-    // fifth stream: statements over a JOIN (fan-out 0, 1 and more); for aggregates a line with several partners shows one
-    // table per partner (finding D61), otherwise the relation is demanded as for every statement
+    // fifth stream: statements over a JOIN (fan-out 0, 1 and more); the relation is demanded as for every statement: for
+    // aggregates a line with several partners shows ONE table, the batch table (D61, repaired in 7277b4c, is a failure again)
     let m5 = p.n(300, 10_000);
     let jpath = crate::runq::tmp_file(b"");
     let jp = jpath.display().to_string();
